@@ -518,7 +518,8 @@ C("_handle_eof_sent", arg_types={**SELF, "cancel_eof": T.Bool}, props=("C13", "C
           opt(_pa(n.self).ack_timer, lambda t: Not_(B(t.expired)), False))), ("C04",)),
       Clause("C13.src.closure_arms_check_timer", lambda o, n, r: Implies_(And_(
           eq(mode(o.self), UNACK), Not_(B(o.cancel_eof)), B(o.self._params.closure_requested)), And_(
-          step_is(n.self, STEP.WAITING_FOR_FINISHED), opt(n.self._params.check_timer, lambda t: Not_(B(t.expired)), False))), ("C13",)),
+          step_is(n.self, STEP.WAITING_FOR_FINISHED), opt(n.self._params.check_timer, lambda t: And_(
+              Not_(B(t.expired)), _timer_for_sending_entity(t)), False))), ("C13",)),
       Clause("C02.src.no_closure_completes", lambda o, n, r: Implies_(And_(
           eq(mode(o.self), UNACK), Not_(B(o.cancel_eof)), Not_(B(o.self._params.closure_requested))),
           step_is(n.self, STEP.NOTICE_OF_COMPLETION)), ("C02", "C13")),
@@ -733,24 +734,24 @@ C("_prepare_metadata_pdu", arg_types=SELF, props=("C07", "C08"), result=None,
 
 # (C07 too: a re-transmitted File Data PDU is a File Data PDU of the stream - it carries the file's bytes at its offset and is no
 # longer than the effective segment length; that is the per-iteration obligation of the loop)
-C("_handle_segment_req", arg_types={**SELF, "segment_req": T.Pair}, props=("C08", "C07"), result=None,
+C("_handle_segment_req", arg_types={**SELF, "segment_req": T.Pair}, props=("C08", "C07", "C03", "C12"), result=None,
   requires=REQ_INV + [("active", active_with_file),
                       ("seglen_bound", lambda o: o.self._params.fp.segment_len <= 65527),
                       ("unsigned_offsets", lambda o: And_(o.segment_req[0] >= 0, o.segment_req[1] >= 0))],
   modifies=QMOD,
   ensures=[
-      Clause("C08.metadata_request_resends_metadata", lambda o, n, r: Implies_(_req_is_metadata(o), _md_pdu_ok(o, n)), ("C08",)),
+      Clause("C08.metadata_request_resends_metadata", lambda o, n, r: Implies_(_req_is_metadata(o), _md_pdu_ok(o, n)), ("C08", "C03")),
       Clause("C08.valid_range_is_tiled", lambda o, n, r: Implies_(Not_(_req_is_metadata(o)), And_(
           Not_(_req_invalid(o)),
           # the loop ran to completion (body obligations: one chunk per iteration, starting at `start`, contiguous,
           # each within the segment length; exit: nothing of [start, end) is left) or the range was empty
-          len(emitted(n)) == 0 and len(inds(n)) == 0 and len(fault_cbs(n)) == 0)), ("C08",)),
+          len(emitted(n)) == 0 and len(inds(n)) == 0 and len(fault_cbs(n)) == 0)), ("C08", "C03")),
       Clause("queue.counter", lambda o, n, r: And_(to_z3_int(n.self.states._num_packets_ready) == qlen(n.self),
                                                   qlen(n.self) >= qlen(o.self)), ("C08",)),
   ],
   raises=[RaiseClause("C08.invalid_request_rejected", X.InvalidNakPdu, when=_req_invalid, iff=True, props=("C08",),
                       modifies=[], post=lambda o, n: len(n.trace) == 0)],
-  loops={0: LoopSpec(_sr_loop_inv, modifies=QMOD, props=("C08", "C07"), body_post=_sr_body_post,
+  loops={0: LoopSpec(_sr_loop_inv, modifies=QMOD, props=("C08", "C07", "C03", "C12"), body_post=_sr_body_post,
                      variant=lambda I, env, idx, n: env.missing_chunk_len)},
   effects={"vfs"}, modular=True)
 CONTRACTS[-1].inline_callees = {"SourceHandler._prepare_file_data_pdu", "SourceHandler._prepare_metadata_pdu"}
@@ -767,7 +768,7 @@ def _hr_loop_inv(I, pre, env, idx, n):
     ]
 
 
-C("__handle_retransmission", arg_types={**SELF, **HOLDER}, props=("C08",), result=T.Bool, setup=_holder_setup,
+C("__handle_retransmission", arg_types={**SELF, **HOLDER}, props=("C08", "C03"), result=T.Bool, setup=_holder_setup,
   requires=REQ_INV + [("active", active_with_file), ("pdu_wf", lambda o: pdu_wf(_holder_pdu(o))),
                       ("seglen_bound", lambda o: o.self._params.fp.segment_len <= 65527),
                       ("acked", lambda o: eq(mode(o.self), ACK)),
@@ -777,14 +778,14 @@ C("__handle_retransmission", arg_types={**SELF, **HOLDER}, props=("C08",), resul
   cond_frames=[("C08.no_nak_no_effect", lambda o: True if not _hr_is_nak(o) else False, [], {"silent": True})],
   ensures=[
       Clause("C08.returns_whether_nak", lambda o, n, r: (r if isinstance(r, bool) else B(r)) if _hr_is_nak(o)
-             else (not r if isinstance(r, bool) else Not_(B(r))), ("C08",)),
+             else (not r if isinstance(r, bool) else Not_(B(r))), ("C08", "C03")),
       Clause("C08.resume_point_recorded", lambda o, n, r: (And_(
           step_is(n.self, STEP.RETRANSMITTING),
           opt(n.self._params.ack_params.step_before_retransmission, lambda s: Eq_(s, o.self.states.step), False))
-          if _hr_is_nak(o) else True), ("C08",)),
+          if _hr_is_nak(o) else True), ("C08", "C03")),
       Clause("queue.counter", lambda o, n, r: And_(to_z3_int(n.self.states._num_packets_ready) == qlen(n.self),
-                                                  qlen(n.self) >= qlen(o.self)), ("C08",)),
-  ] + inv_clauses(("C08",)),
+                                                  qlen(n.self) >= qlen(o.self)), ("C08", "C03")),
+  ] + inv_clauses(("C08", "C03")),
   raises=[RaiseClause("C08.invalid_nak", X.InvalidNakPdu, when=lambda o: _hr_is_nak(o), props=("C08", "C10"), modifies=QMOD,
                       post=lambda o, n: And_(to_z3_int(n.self.states._num_packets_ready) == qlen(n.self)))],
   loops={0: LoopSpec(_hr_loop_inv, modifies=QMOD, props=("C08",))},
@@ -965,7 +966,7 @@ C("_sending_file_data_fsm", arg_types={**SELF, **HOLDER}, props=("C07", "C08", "
       # check timer, exactly like a file transfer after its EOF PDU; in every other case the timer is not touched
       Clause("C13.src.metadata_only_closure_arms_check_timer", lambda o, n, r: (True if _is(o, NakPdu) else And_(
           Implies_(And_(B(o.self._params.fp.metadata_only), B(o.self._params.closure_requested), eq(mode(o.self), UNACK)),
-                   opt(n.self._params.check_timer, lambda t: Not_(B(t.expired)), False)),
+                   opt(n.self._params.check_timer, lambda t: And_(Not_(B(t.expired)), _timer_for_sending_entity(t)), False)),
           Implies_(Not_(And_(B(o.self._params.fp.metadata_only), B(o.self._params.closure_requested), eq(mode(o.self), UNACK))),
                    same_obj(n.self._params.check_timer, o.self._params.check_timer)))), ("C13", "C02")),
       Clause("C07.one_file_data_pdu_per_call", lambda o, n, r: (True if (_is(o, NakPdu)) else And_(
@@ -982,6 +983,11 @@ C("_sending_file_data_fsm", arg_types={**SELF, **HOLDER}, props=("C07", "C08", "
               Implies_(Or_(B(o.self._params.closure_requested), eq(mode(o.self), ACK)), step_is(n.self, STEP.WAITING_FOR_FINISHED)),
               Implies_(And_(Not_(B(o.self._params.closure_requested)), eq(mode(o.self), UNACK)),
                        step_is(n.self, STEP.NOTICE_OF_COMPLETION)))))), ("C02", "C07")),
+      # C02: the call leaves the dispatcher early (result True) only after it queued a File Data PDU or serviced a NAK; when the
+      # step changed to one that waits for the peer, the PDU handed to this very call is still looked at by the dispatcher
+      Clause("C02.returns_early_only_after_emitting", lambda o, n, r: (True if _is(o, NakPdu) else Implies_(
+          r if isinstance(r, bool) else B(r), And_(qlen(n.self) == qlen(o.self) + 1, step_is(n.self, STEP.SENDING_FILE_DATA)))),
+          ("C02", "C07")),
       Clause("C08.nak_serviced_while_sending", lambda o, n, r: (And_(
           step_is(n.self, STEP.RETRANSMITTING), Eq_(n.self._params.fp.progress, o.self._params.fp.progress))
           if _is(o, NakPdu) else True), ("C08",)),
@@ -1405,6 +1411,12 @@ C("get_next_packet", arg_types=SELF, props=("C10",), result=T.Opaque,
           Implies_(qlen(o.self) > 0, And_(r is not None, qlen(n.self) == qlen(o.self) - 1))), ("C10",)),
   ] + inv_clauses(("C10",)),
   effects=set(), modular=False)
+
+
+def _timer_for_sending_entity(t):
+    """the check timer was requested from the provider for the SENDING entity (the provider may use different periods per kind)"""
+    from cfdppy.mib import EntityType
+    return t.f.get("_for_entity") is EntityType.SENDING
 
 
 def _fresh_params(n):
